@@ -187,6 +187,42 @@ def oracle_pickle(rng):
                     'compiled (%d columns) instead of rejected' % (list(new.scalar_variable_ids), pr.A.shape[1]))
         except RuntimeError:
             pass
+        # 2c. dumped AFTER the clear: the Variable still belongs to the generation it was declared in
+        cl.clear_variable_indices()
+        old = cl.Variable(shape=(2,), name='pg_old2')
+        cl.clear_variable_indices()
+        blob = pickle.dumps(old)
+        old2 = pickle.loads(blob)
+        new = cl.Variable(shape=(2,), name='pg_new2')
+        if old2.generation != old.generation:
+            return ('a Variable declared in generation %r and pickled after clear_variable_indices() was loaded with generation %r'
+                    % (old.generation, old2.generation))
+        try:
+            pr = cl.Problem(cl.MIN, old2[0] + old2[1] + new[0] + new[1], [old2 >= 1, new >= 2])
+            return ('a model mixing a Variable of an earlier generation (pickled after the clear) with a Variable of the current one was '
+                    'compiled (%d columns) instead of rejected' % pr.A.shape[1])
+        except RuntimeError:
+            pass
+        # 2d. a Problem with nonlinear atoms: the loaded constraints compile again to the same model, and every Variable the
+        #     constraints mention (epigraph Variables included) is one of the Problem's Variables
+        yv = cl.Variable(shape=(3,), name='pnl_y')
+        tv = cl.Variable(shape=(1,), name='pnl_t')
+        pnl = cl.Problem(cl.MIN, tv[0] + 0.5 * yv[0], [cl.vector2norm(yv) <= tv, yv[0] >= 1, yv[1] + yv[2] == 2,
+                                                        cl.weighted_sum_exp(np.array([1.0]), yv[:1]) <= 4])
+        ref = pnl.solve(verbose=False)
+        for label, pp in (('original', pnl), ('unpickled', pickle.loads(pickle.dumps(pnl)))):
+            known = {id(v_) for v_ in pp.all_variables}
+            for con in pp.constraints:
+                for v_ in con.variables():
+                    if v_ is None or id(v_) not in known:
+                        return 'a constraint of the %s Problem mentions a Variable (%s) that is not among the Problem\'s Variables' % (
+                            label, getattr(v_, 'name', v_))
+            try:
+                got = cl.Problem(pp.objective_sense, pp.objective_expr, pp.constraints).solve(verbose=False)
+            except Exception as e:
+                return 'the constraints of the %s Problem (nonlinear atoms) cannot be compiled again: %s %s' % (label, type(e).__name__, ' '.join(str(e).split())[:120])
+            if got[0] != ref[0] or abs(got[1] - ref[1]) > 1e-6:
+                return 'the constraints of the %s Problem recompile to a model that solves to %r, the original to %r' % (label, got, ref)
         # 3. graphs that contain slices (improper Variables) in any order relative to their parent: the components stay
         #    linked to the proper Variable and a model over the loaded objects still compiles (fixed in /repo f0e3c75)
         for trial in range(6):
